@@ -51,11 +51,14 @@ def gen_cases(tier, seed):
         wf = {e: rng.choice([0, 1, 1, 2, 5, 1 << 20]) for e in edges}
         if rng.random() < 0.2:
             wf = {e: rng.choice([0, 0.5, 0.25, 1.5, 2, 0.75]) for e in edges}        # weights need not be integers (dyadic, so sums are exact)
+        nondyadic = rng.random() < 0.06
+        if nondyadic:
+            wf = {e: rng.choice([0.1, 0.2, 0.3, 0.7, 1.1, 0.25]) for e in edges}      # decimal fractions: sums are NOT exact in binary
         if rng.random() < 0.3:
             for e in list(wf):
                 if rng.random() < 0.3:
                     del wf[e]
-        cases.append({"kind": "anti", "spec": gen.spec(nodes, edges), "wf": [[u, v, w] for (u, v), w in wf.items()], "default": rng.random() < 0.15,
+        cases.append({"kind": "anti", "spec": gen.spec(nodes, edges), "wf": [[u, v, w] for (u, v), w in wf.items()], "nondyadic": nondyadic, "default": (not nondyadic) and rng.random() < 0.15,
                       "st_weights": (rng.choice([None, None, [rng.choice([0, 1, 3, 5]) for _ in range(8)]])),
                       "starts": ([rng.choice(nodes)] if rng.random() < 0.15 else []), "ends": ([rng.choice(nodes)] if rng.random() < 0.15 else [])})
     for i in range(n):
@@ -228,6 +231,25 @@ def run_anti(case, viol, obs):
         w = {e: wf.get(e, 0) for e in st.edges}
     obs["c17.antichains"] += 1
     desc = f"edges {list(G.edges)} weights {sorted((str(e), x) for e, x in w.items() if x)}"
+    if case.get("nondyadic"):
+        # decimal-fraction weights: judged within 1e-9, and every disagreement is keyed by this input class (known finding: the routine hands
+        # float demands to networkx' network simplex, which is exact for integer data only)
+        obs["c17.antichains_nondyadic"] += 1
+        best, rf = brute_antichain(st, w)
+        bad = None
+        if r[0] != "ok":
+            bad = f"raises {r[1]}: {r[2]}"
+        elif r[1] is None or r[1][0] is None:
+            bad = f"returns {r[1]!r}"
+        else:
+            val, anti = r[1]
+            if any(comparable(rf, a, b) for a, b in itertools.combinations(anti, 2)):
+                bad = f"antichain {anti} not pairwise unreachable"
+            elif abs(sum(w.get(e, 0) for e in anti) - val) > 1e-9 or abs(val - best) > 1e-9:
+                bad = f"reported {val}, antichain sum {sum(w.get(e, 0) for e in anti)}, brute-force maximum {best}"
+        if bad:
+            viol.append({"sig": "C17/antichain/non-dyadic-float-weights/" + ("raises" if r[0] != "ok" else ("none" if "returns" in bad else "wrong")), "msg": f"{bad}; {desc}"})
+        return hashlib.sha1(desc.encode()).hexdigest()[:14], True
     if r[0] != "ok":
         viol.append({"sig": f"C17/antichain-raises/{r[1]}", "msg": f"compute_max_edge_antichain raised {r[1]}: {r[2]}; {desc}"}); return None, False
     val, anti = r[1]
